@@ -9,9 +9,12 @@ package main
 import (
 	"crypto/sha256"
 	"fmt"
+	"os"
 	"reflect"
 	"strconv"
 	"strings"
+	"sync/atomic"
+	"time"
 
 	"verifharness/hx"
 
@@ -413,7 +416,46 @@ func (w *world) mop(o string) (deleted []E) {
 	return deleted
 }
 
+// The sequential part runs on the main goroutine.  A call that blocks forever there (a method that takes a lock it already
+// holds, e.g. a Replace whose s.Clear() resolves to a new set.Clear taking applyMutex again) would end the run with the Go
+// runtime's "all goroutines are asleep" and no finding.  seqWatchdog notices that the current request has not returned
+// for a long time, records the request as the last line of the case, reports oracle `deadlock` (so the case is the replay)
+// and ends the run.  Concurrent scenarios have their own watchdogs and are exempt.
+var (
+	seqOp   atomic.Pointer[string]
+	seqTick atomic.Int64
+)
+
+const seqLimit = 60 * time.Second
+
+func seqWatchdog(r *hx.Run) {
+	last, since := int64(-1), time.Now()
+	for {
+		time.Sleep(500 * time.Millisecond)
+		cur, op := seqTick.Load(), seqOp.Load()
+		if cur != last || op == nil {
+			last, since = cur, time.Now()
+
+			continue
+		}
+		switch strings.Fields(*op)[0] {
+		case "forced", "overlap", "inside", "race", "mforced", "alias", "cross", "stress":
+			continue
+		}
+		if time.Since(since) > seqLimit {
+			r.Line(*op, "hung")
+			r.Fail("deadlock", fmt.Sprintf("the sequential call %q did not return within %v (no other goroutine is running)", *op, seqLimit),
+				map[string]string{"api": strings.Fields(*op)[0], "oracle": "deadlock", "schedule": "sequential"})
+			r.Finish()
+			os.Exit(0)
+		}
+	}
+}
+
 func (w *world) exec(op string) (ans string) {
+	seqOp.Store(&op)
+	seqTick.Add(1)
+	defer seqOp.Store(nil)
 	if p := hx.Safely(func() { ans = w.exec1(op) }); p != "" {
 		w.r.Fail("panic", op+": "+p, map[string]string{"api": strings.Fields(op)[0], "oracle": "panic"})
 
@@ -1767,6 +1809,7 @@ func main() {
 		"forced DeleteAll/AddAll-vs-pending-writer schedules; stress histories checked for linearizability by the Lean driver; " +
 		"non-trivial = sequential case with >=5 op kinds and >=3 state changes (distinct by sha256 of the op lines), " +
 		"or a concurrent history with >=2 overlapping calls (distinct by its text)"
+	go seqWatchdog(r)
 	if lines := r.ReplayLines(); lines != nil {
 		runCase(r, 0, lines)
 		r.Finish()
